@@ -343,6 +343,15 @@ func (sel *Selection) beginEdit(r NodeRequest, bubble bool) error {
 	}
 	for {
 		if err := r.Selection.Node.BeginEdit(r); err != nil {
+			// nodes that were already told the edit begins are told it ended
+			failed := r.Selection
+			undo := r
+			undo.EditRoot = true
+			for s := sel; s != failed; s = s.parent {
+				undo.Selection = s
+				s.Node.EndEdit(undo)
+				undo.EditRoot = false
+			}
 			return err
 		}
 		if r.Selection.parent == nil || !bubble {
@@ -356,15 +365,21 @@ func (sel *Selection) beginEdit(r NodeRequest, bubble bool) error {
 
 func (sel *Selection) endEdit(r NodeRequest, bubble bool) error {
 	r.Selection = sel
+	var firstErr error
 	for {
-		if err := r.Selection.Node.EndEdit(r); err != nil {
-			return err
+		// every node that was told the edit begins is told it ended, also when
+		// one of them fails; the first error is the one returned
+		if err := r.Selection.Node.EndEdit(r); err != nil && firstErr == nil {
+			firstErr = err
 		}
 		if r.Selection.parent == nil || !bubble {
 			break
 		}
 		r.Selection = r.Selection.parent
 		r.EditRoot = false
+	}
+	if firstErr != nil {
+		return firstErr
 	}
 	if err := sel.Browser.Triggers.endEdit(r); err != nil {
 		return err
